@@ -20,8 +20,22 @@ tie    : exact metrics served as MATRICES through the distance / kernel callback
              model selection; the real tree is dumped, its invariants checked (ct_inv_b, ct_holds_b, leaf100_b), the
              model of the construction must build the same tree, and the model batch query is run on the real tree
              (candidate sets must coincide; its audit flag must be true: theorem ct_query_audit_true).
-search : when a proof or the correspondence breaks, a larger budget of tie-heavy cases is run
-         against is_knn_b directly.
+         dispatcher (wave 4): Knn_Wrapper_Model.find_neighbors_core models find_neighbors with the result of the tree
+         search as an arbitrary parameter and the exhaustive-search fallback of fix F48; theorem wrapper_fired_exact: for
+         EVERY callback a fired fallback returns a table whose every row is an exact k-nearest row.  Tied by
+           * T: translate/t_knn_wrapper.py reads the shape of find_neighbors (clamp, dispatch, fallback block) from the
+             tree under test; it must be the committed coq/gen/KnnWrapper.v (= the model's shape, obligation
+             fn_shape_src_is_model);
+           * a stream of NON-metric callbacks (arbitrary symmetric / asymmetric integer tables, squared Euclidean
+             distances, perturbed lattice metrics, kernel-induced distances of a linear kernel on features with a common
+             offset of 2e6..1e7) through command W of the harness: the raw tree table, the table find_neighbors returns
+             and the number of warnings seen by a custom LoggerImplementation; the extracted find_neighbors_core decides
+             from the raw table whether the fallback must fire (compared with the logger), and when it does every
+             returned row goes through the extracted is_knn_b on the callback's values as they are (for the kernel
+             flavour: the table printed by the library's own KernelDistance, ranks of the doubles);
+           * on every metric case one W probe per tree method: nothing logged, table returned = the tree's table.
+search : when a proof, the translator table or the correspondence breaks, the dispatcher stream (non-metric callbacks) and a
+         larger budget of tie-heavy metric cases are run against is_knn_b directly.
 """
 import hashlib
 import json
@@ -48,6 +62,13 @@ TRUSTED = [
     "real tree, ct_inv_b / ct_holds_b / leaf100_b are evaluated on the dumped real tree, the model query on the real tree "
     "must return the real candidate sets, cand_complete_b is evaluated on the real candidate lists",
     "kernel flavour: sqrt is monotone and exact on perfect squares; rows are judged through squared distances",
+    "dispatcher find_neighbors: hand-written model Knn_Wrapper_Model.find_neighbors_core (tree result = parameter; "
+    "check_connectivity = false; the retry recursion of check_connectivity = true is only tested, command G); tied by the "
+    "translator translate/t_knn_wrapper.py (regular expressions + brace matching over the body of find_neighbors; "
+    "comments, string literals, logger calls, static_cast<IndexType> and the iterator type's spelling are dropped; "
+    "self-test with 5 seeded edits on every run) and by the differential run on non-metric callbacks; the logger "
+    "observation trusts tapkee::Logging to forward message_warning to the installed LoggerImplementation; noisy "
+    "kernel distances are judged on the doubles KernelDistance::distance returns (ranks), a table with a NaN is skipped",
     "extraction (ExtrOcamlBasic only) + OCaml 4.13.1 + coq/extract/c02_driver.ml (parsing/printing)",
     "harness/c02.cpp dump routines; g++ ASan/UBSan/_GLIBCXX_ASSERTIONS as the memory-safety observer",
 ]
@@ -429,6 +450,9 @@ def commands_for(c, structural=True):
     if c.get("conn_k"):
         for m in METHODS:
             cmds.append("G %s %d" % (m, c["conn_k"]))
+    if c.get("deque_k"):
+        for m in METHODS:
+            cmds.append("E %s %d" % (m, c["deque_k"]))
     if c.get("wrap_k"):
         for m in ("V", "C"):
             cmds.append("W %s %d" % (m, c["wrap_k"]))
@@ -452,7 +476,7 @@ def hexf(tok):
 def parse_case_output(lines):
     """-> dict: F[(m,k)] = rows (dict q -> list) ; O[(k,row)] = list ; T[k] = {"nodes":[...], "rows":{q:[..]}} ;
     Q[k] = {q: cands} ; CT = {"nodes": [...]} ; bad = [messages]"""
-    res = {"F": {}, "G": {}, "O": {}, "T": {}, "Q": {}, "CT": None, "bad": [], "exc": [], "W": {}, "P": None}
+    res = {"F": {}, "G": {}, "E": {}, "O": {}, "T": {}, "Q": {}, "CT": None, "bad": [], "exc": [], "W": {}, "P": None}
     i = 0
     n = len(lines)
     while i < n:
@@ -461,7 +485,7 @@ def parse_case_output(lines):
         try:
             if not w:
                 continue
-            if w[0] in ("F", "G"):
+            if w[0] in ("F", "G", "E"):
                 m, k, nrows = w[1], int(w[2]), int(w[3])
                 rows = []
                 for _ in range(nrows):
@@ -678,9 +702,11 @@ def fails_spec(ctx, exe, mexe, c, method, k, conn=False):
         return fails_wrap(ctx, exe, mexe, c, method, k)
     if not (1 <= k <= c["N"] - 1):
         return None
-    tag = "G" if conn else "F"
+    tag = "E" if conn == "deque" else "G" if conn else "F"
     r = run_impl(ctx, exe, [c], [["%s %s %d" % (tag, method, k)]], timeout=20 if c["N"] <= 200 else 120)[0]
-    cc = ", check_connectivity=true" if conn else ""
+    cc = ", over std::deque iterators" if conn == "deque" else ", check_connectivity=true" if conn else ""
+    if conn == "deque":
+        conn = False
     if r["crashed"]:
         return "find_neighbors(%s, k=%d%s) aborts: %s" % (MNAME[method], k, cc, str(r["sanitizer"])[:400])
     p = parse_case_output(r["lines"])
@@ -733,6 +759,8 @@ def report_violation(ctx, exe, mexe, c, method, k, why, conn=False):
     rep = {"gen": c["gen"], "kind": c["kind"], "N": small["N"], "method": method, "k": k}
     if conn == "wrap":
         rep["wrap"] = True
+    elif conn == "deque":
+        rep["deque"] = True
     elif conn:
         rep["conn"] = True
     rep["M" if c["kind"] == "D" else "X"] = small["M"] if c["kind"] == "D" else small["X"]
@@ -773,6 +801,13 @@ def evaluate(ctx, exe, mexe, cases, stats, structural=True):
                         break
                 if hit:
                     break
+            if not hit and c.get("deque_k"):
+                for m in METHODS:
+                    why = fails_spec(ctx, exe, mexe, c, m, c["deque_k"], "deque")
+                    if why:
+                        report_violation(ctx, exe, mexe, c, m, c["deque_k"], why, "deque")
+                        hit = True
+                        break
             if not hit and c.get("conn_k"):
                 for m in METHODS:
                     why = fails_spec(ctx, exe, mexe, c, m, c["conn_k"], True)
@@ -824,6 +859,16 @@ def evaluate(ctx, exe, mexe, cases, stats, structural=True):
                     continue
                 text.append(rows_text(k, rows))
                 plan.append(("R", m, k, rows))
+            if k == c.get("deque_k"):
+                for m in METHODS:
+                    rows = p["E"].get((m, k))
+                    if rows is None or sorted(q for q, _ in rows) != list(range(n)) or sane_rows(rows, n) is None:
+                        why = fails_spec(ctx, exe, mexe, c, m, k, "deque") or \
+                            "find_neighbors(%s,k=%d) over std::deque iterators: output malformed" % (m, k)
+                        report_violation(ctx, exe, mexe, c, m, k, why, "deque")
+                        continue
+                    text.append(rows_text(k, rows))
+                    plan.append(("E", m, k, rows))
             if k == c.get("conn_k"):
                 for m in METHODS:
                     rows = p["G"].get((m, k))
@@ -911,6 +956,16 @@ def evaluate(ctx, exe, mexe, cases, stats, structural=True):
                         "%s k=%d query %d: returned row %s is not a set of k nearest other samples"
                         % (MNAME[m], k, bad, dict(rows)[bad]))
                     report_violation(ctx, exe, mexe, c, m, k, why)
+            elif item[0] == "E":
+                _, m, k, rows = item
+                got = take("R ", len(rows))
+                nrows += len(rows)
+                stats["rows_deque"] = stats.get("rows_deque", 0) + len(rows)
+                if any(g.partition("|")[0].split()[2] != "1" for g in got):
+                    why = fails_spec(ctx, exe, mexe, c, m, k, "deque") or (
+                        "%s k=%d over std::deque iterators (a non-contiguous random-access range): a returned row is not "
+                        "a set of k nearest other samples" % (MNAME[m], k))
+                    report_violation(ctx, exe, mexe, c, m, k, why, "deque")
             elif item[0] == "G":
                 _, m, k, rows = item
                 got = take("R ", len(rows))
@@ -1538,6 +1593,10 @@ def run(ctx):
     for c in cases:
         if c["gen"] not in FAST and c["N"] <= 150 and c["ks"]:
             c["conn_k"] = rng.choice(c["ks"][:3])
+    # one k per non-batched case over a NON-CONTIGUOUS random-access range (std::deque iterators), all three methods
+    for c in cases:
+        if c["gen"] not in FAST and c["N"] <= 150 and c["ks"]:
+            c["deque_k"] = rng.choice(c["ks"])
     # one probe per non-batched case of the dispatcher with the logger observed (command W), tree methods: on a metric the
     # fallback must not fire
     for c in cases:
@@ -1613,13 +1672,21 @@ def run(ctx):
              "the property's hypothesis: 1-D coordinates over 23 decades, callback fl(|x-y|) - a table that violates the "
              "triangle inequality by an ulp on tight (collinear) triples; float_tables_not_metric counts such tables, "
              "float_bad_rows_V/C the short or farther rows the tree methods then return (no verdict; a verdict only if the "
-             "table is an exact metric, or for brute force).",
+             "table is an exact metric, or for brute force).  Dispatcher stream (wrap_* in histogram.stats): callbacks that "
+             "are NOT metrics (nm_sym arbitrary symmetric integer tables, nm_asym asymmetric ones, nm_sq squared Euclidean, "
+             "nm_pert lattice metrics with a few entries moved, nm_koff linear-kernel distances of features with a common "
+             "offset 2e6..1e7), 5-6 k each, three methods: evaluation = one row of the table find_neighbors returned; rows "
+             "are JUDGED (is_knn_b, no metric assumed) for brute force always and for a tree method when the raw tree "
+             "table has a row of size != k (fallback must fire: wrap_fired_*, wrap_rows_judged; "
+             "wrap_fired_with_wrong_complete_rows counts the fired calls whose raw table also held complete but wrong "
+             "rows); otherwise the returned table must be the raw tree table.",
         samples=[{"gen": c["gen"], "N": c["N"], "ks": c["ks"][:6],
                   "first_row": (c.get("M") or c.get("X"))[0][:12]} for c in cases[:2] + cases[len(tiny) + 2:len(tiny) + 7]],
         histogram={"generators": hist, "sizes": sizes, "stats": stats},
         trusted_base=TRUSTED,
         assumptions=["the callback is a metric (symmetric, triangle inequality; zero distances between distinct samples "
-                     "allowed) — brute force needs no assumption", "1 <= k <= N-1", "distances are finite and far "
+                     "allowed) — brute force needs no assumption, and neither does the dispatcher's clause 'a fired "
+                     "fallback returns exact rows' (any callback whose values are not NaN)", "1 <= k <= N-1", "distances are finite and far "
                      "below DBL_MAX", "cover tree: distance ratio below 1.3^188 (101-slot cover_sets array physically "
                      "holds 189 entries)"],
         extra={"cases": len(cases) + len(wcases), "dispatcher_cases_nonmetric": len(wcases)})
@@ -1644,9 +1711,9 @@ def replay(ctx, case):
     rc = 0
     for k in ks:
         for m in methods:
-            r = run_impl(ctx, exe, [c], [["%s %s %d" % ("W" if case.get("wrap") else "F", m, k)]], timeout=60)[0]
+            r = run_impl(ctx, exe, [c], [["%s %s %d" % ("W" if case.get("wrap") else "E" if case.get("deque") else "F", m, k)]], timeout=60)[0]
             print("\n".join(r["lines"][:40]))
-            why = fails_spec(ctx, exe, mexe, c, m, k, "wrap" if case.get("wrap") else bool(case.get("conn")))
+            why = fails_spec(ctx, exe, mexe, c, m, k, "wrap" if case.get("wrap") else "deque" if case.get("deque") else bool(case.get("conn")))
             if why:
                 print("replay: property C02 FAILS: " + why[:1200])
                 rc = 1
